@@ -13,7 +13,7 @@
    must print what the implementation prints and fail where it fails. *)
 From Coq Require Import List NArith ZArith Bool.
 From Abasic Require Import Model.Bytes Model.Num Model.Token Model.Data Model.Lexer Gen.Tables
-     Model.State Model.Eval Model.Interp Ref.RefSem Proofs.ExprSem Proofs.RefProofs.
+     Model.State Model.Eval Model.Interp Ref.RefSem Proofs.ExprSem Proofs.RefProofs Proofs.StmtSim.
 Import ListNotations.
 Local Open Scope nat_scope.
 
@@ -76,6 +76,61 @@ Proof.
   symmetry. apply (ref_expr_is_den e e' st s (xsize e) Htr Hrel). apply le_n.
 Qed.
 
+(* (3) statements: the assignment statement `v = e`, in ANY legal token spelling,
+   from any cursor position of any line, run by the model's statement evaluator
+   and by the reference interpreter from related stores ([same_store]: frames and
+   variables agree): both succeed or both fail with the same error kind; on
+   success the stores are related again (so the step composes), the model's
+   cursor is just past the statement and only the store, cursor, read counter
+   and (warnings) outputs changed; on failure neither store changed. *)
+Theorem C03_let_statement_simulates : forall s toks,
+  fst (cur_tokens s) = Ok toks -> enable_tracing s = false ->
+  forall v e e' ts rest i,
+  skipn i toks = TSymbol v :: TEquals :: ts ++ rest -> stops 0 rest = true ->
+  tr e = Some e' -> Renders 0 e' ts -> 1 + pdepth e' < max_nesting ->
+  forall p after li st, same_store st s ->
+  exists fuel0, forall fuel, fuel0 <= fuel -> forall r o,
+    match exec (xsize e) p (SLet v [] e) after li st with
+    | Next pc st' =>
+        pc = after /\
+        exists s', evaluate_statement fuel 0 (at_idx s i r o) = (Ok tt, s')
+          /\ same_store st' s'
+          /\ loc s' = mkloc (loc_line (loc s)) (i + 2 + length ts)
+          /\ W s o (outputs s')
+          /\ (exists x r', s' = set_variables (alist_set v x (variables s))
+                                (at_idx s (i + 2 + length ts) r' (outputs s')))
+    | Fail er line st' =>
+        line = line_no p li /\ st' = st /\
+        exists ie l s', evaluate_statement fuel 0 (at_idx s i r o) = (Err ie l, s')
+          /\ rerr_of ie = er /\ same_store st s'
+    | Done _ | NoFuel => False
+    end.
+Proof. exact let_statement_simulates. Qed.
+
+(* the relation gives the expression theorem its hypothesis *)
+Theorem C03_same_store_reads : forall st s, same_store st s -> same_reads st s.
+Proof. exact same_store_reads. Qed.
+
+(* non-vacuity of (3): `A = 1 + B` typed as an immediate line into a fresh
+   interpreter, against the reference from its initial state *)
+Example C03_let_example :
+  let toks := [TSymbol (bs "A"); TEquals; TNumber (f64_of_Z 1); TPlus; TSymbol (bs "B")] in
+  let s := set_immediate toks init_interp in
+  fst (cur_tokens s) = Ok toks /\ enable_tracing s = false
+  /\ skipn 0 toks = TSymbol (bs "A") :: TEquals :: [TNumber (f64_of_Z 1); TPlus; TSymbol (bs "B")] ++ []
+  /\ tr (XBin RAdd (XNum (f64_of_Z 1)) (XVar (bs "B"))) = Some (EBin (BAddSub OAdd) (ENum (f64_of_Z 1)) (EVar (bs "B")))
+  /\ Renders 0 (EBin (BAddSub OAdd) (ENum (f64_of_Z 1)) (EVar (bs "B"))) [TNumber (f64_of_Z 1); TPlus; TSymbol (bs "B")]
+  /\ same_store (r_init 0) s
+  /\ fst (evaluate_statement 20 0 s) = Ok tt
+  /\ alist_get (bs "A") (variables (snd (evaluate_statement 20 0 s))) = Some (VNum (f64_of_Z 1)).
+Proof.
+  cbv zeta. repeat split; try reflexivity.
+  - do 3 (apply R_incl; [repeat constructor|]).
+    apply (R_bin (BAddSub OAdd) (ENum (f64_of_Z 1)) (EVar (bs "B")) [TNumber (f64_of_Z 1)] [TSymbol (bs "B")]).
+    + do 4 (apply R_incl; [repeat constructor|]). constructor.
+    + do 3 (apply R_incl; [repeat constructor|]). constructor.
+Qed.
+
 (* non-vacuity: the manual's nested-loop example (NEXT I forgets the J loop)
    and a GOSUB in a colon line, run by the reference interpreter *)
 Definition nx := XNum (f64_of_Z 1).
@@ -95,3 +150,5 @@ Print Assumptions C03_ref_implicit_array.
 Print Assumptions C03_ref_data_order.
 Print Assumptions C03_expr_reference_is_fold.
 Print Assumptions C03_expr_model_is_reference.
+Print Assumptions C03_let_statement_simulates.
+Print Assumptions C03_same_store_reads.
